@@ -61,6 +61,22 @@ def load_function(relpath, qualname):
             p, k_ = p.split("#")
             want = int(k_)
         seen_ = 0
+        if p == "<lambda>":
+            # the n-th lambda expression inside the enclosing function, presented as a function `def <lambda>(args): return <body>`
+            for ch in ast.walk(node):
+                if isinstance(ch, ast.Lambda):
+                    seen_ += 1
+                    if seen_ == want:
+                        found = ast.FunctionDef(name="<lambda>", args=ch.args, body=[ast.copy_location(ast.Return(value=ch.body), ch.body)],
+                                                decorator_list=[], returns=None, type_comment=None)
+                        ast.copy_location(found, ch)
+                        ast.fix_missing_locations(found)
+                        found._lambda = ch
+                        break
+            if found is None:
+                raise LookupError("lambda %s not found in %s" % (qualname, relpath))
+            node = found
+            continue
         for ch in ast.walk(node) if node is not mod and not isinstance(node, ast.ClassDef) else ast.iter_child_nodes(node):
             if isinstance(ch, (ast.FunctionDef, ast.AsyncFunctionDef, ast.ClassDef)) and ch.name == p and ch is not node:
                 seen_ += 1
@@ -72,7 +88,7 @@ def load_function(relpath, qualname):
         if isinstance(found, ast.ClassDef):
             cls = found
         node = found
-    text = ast.get_source_segment(src, node)
+    text = ast.get_source_segment(src, getattr(node, "_lambda", node))
     return FuncSrc(relpath, qualname, node, text, mod, cls)
 
 
